@@ -28,13 +28,13 @@ NOCR = {"exclude": "\r\0"}
 
 
 def _esc_free(params):
-    return [Free("s", kind="seg", maxlen=params["k"])]
+    return [Free("abcdefgh"[i]) for i in range(params["k"])]
 
 
 def _esc_run(params, values):
     from markdown_it.common.utils import escapeHtml
 
-    s = values["s"]
+    s = "".join(values["abcdefgh"[i]] for i in range(params["k"]))
     out = escapeHtml(s)
     recs = []
     if "<" in out or ">" in out or '"' in out:
@@ -56,7 +56,7 @@ def _free(params):
     frees = scaffold_frees(params["scaffold"], params.get("spec", {}))
     for o in params.get("sym_opts", []):
         if o == "langPrefix":
-            frees.append(Free("lp", kind="seg", maxlen=params.get("lp_len", 1)))
+            frees.append(Free("lp", kind="char"))
         else:
             frees.append(Free("o_" + o, kind="bool"))
     return frees
@@ -145,7 +145,8 @@ def jobs(tier, seed):
     jobs = []
     names = "abcdefgh"
     spec_nocr = {n: dict(NOCR) for n in names}
-    jobs.append({"harness": "escape", "params": {"k": 3 if tier == "quick" else 4}, "weight": 9, "cpu_cap": 900, "wall_cap": 1500})
+    for k in ((1, 2, 3) if tier == "quick" else (1, 2, 3, 4)):
+        jobs.append({"harness": "escape", "params": {"k": k}, "weight": 3 * k, "cpu_cap": 1500, "wall_cap": 2400})
     for name, sc, inline, opts in SLOTS:
         cfgs = [JS] if tier == "quick" else [JS, CMH, JST]
         for cfg in cfgs:
